@@ -12,9 +12,9 @@ CHECKS = {
  "C18": ("mirsym+kani", "symbolic execution of optimise_state's MIR per accept/reject history + z3, and Kani/CBMC on the compiled code (scripted State + specification monitor): per-loop temperature of the specification vs the code's, through the acceptance decisions and the exp/powf arguments", "5 C18", K_NOTE),
  "C19": ("mirsym+kani", "symbolic execution of optimise_state's MIR per accept/reject history + z3, and Kani/CBMC on the compiled code (scripted State + specification monitor): every proposal's move size vs max_step_size*range/2 over multi-loop histories, symbolic draws", "5 C19", K_NOTE),
  "C20": ("mirsym+kani", "symbolic execution of optimise_state's MIR per accept/reject history + z3, and Kani/CBMC on the compiled code (scripted State + specification monitor): panic freedom, proposal counts for (steps, inner_steps) edges, convergence rule", "5 C20", K_NOTE),
- "C12": ("mirsym", "symbolic execution of the MIR of Line2/Atom2/LineShape/MolecularShape2::intersects + z3 (nlsat) against exact geometry", "5 C12", M_NOTE),
+ "C12": ("mirsym", "symbolic execution of the MIR of Line2/Atom2/LineShape/MolecularShape2::{intersects, transform} + z3 (nlsat) against exact geometry: discs and segments for all reals, polygon lemma L(n), polygon pairs with symbolic offset on a rotation grid (separating-axis reference)", "5 C12", M_NOTE),
  "C13": ("mirsym", "symbolic execution of the MIR of LJ2::energy / lj2_ops::mul / LJShape2::energy + z3 against the shifted truncated 12-6 law", "5 C13", M_NOTE),
- "C01": ("mirsym", "symbolic execution of check_intersection's MIR (recording opaque shape) to obtain the exact set of tested pairs, shell guards and prefilter; per image offset an nlsat query 'neighbouring tests negative and this image truly overlaps', real-valued offsets beyond the window; z3 4.8 + z3 5.1 portfolio", "4 C01", M_NOTE),
+ "C01": ("mirsym", "symbolic execution of check_intersection's MIR (recording opaque shape; the symbolic shell count is followed by forking on its integer value) to obtain the tested pairs, region guards and prefilters without assuming the loop structure; per image offset an NRA query 'adjacent tests negative and this image truly overlaps' after a solver-checked change of variables to Cartesian lattice vectors; polygons by an orientation branch and bound (interval relaxation for unsat, pinned orientation for counterexamples); real-valued offsets beyond the window; z3 4.8 + z3 5.1 portfolio; native replay with an exhaustive lattice oracle", "4 C01", M_NOTE),
  "C17": ("mirsym", "symbolic execution of Transform2::from_operations' MIR over components of symbolic characters, compared by z3 with a reference transducer written from the grammar; panic sites unreachable", "4 C17", M_NOTE),
  "C02": ("mirsym", "symbolic execution of PackedState::score (shape opaque), LineShape::from_radial+area, MolecularShape2::area/from_trimer MIR + z3: score formula, polygon shoelace area, disc formulas, trimer validity query (known findings)", "5 C02", M_NOTE),
  "C08": ("mirsym", "MIR execution of get_degrees_of_freedom/get_basis/generate_basis/set_value/reset_value/from_wyckoff/from_family + z3: handles, ranges, one-step induction, initial validity; optimise_state histories keep proposals in range", "5 C08", M_NOTE),
